@@ -181,11 +181,17 @@ class _Monitor:
     # ---- online part
     def on_event(self, kind, agent, payload):
         g = self.g
-        if kind == "canceled" and "C10" in self.props:
+        if kind == "canceled" and ("C10" in self.props or "C11" in self.props):
             # the owner is told right after the cancel was handled: the record carries the present step
             now = self.sim.id2market[payload.market_id].get_time()
-            g.require(payload.cancel_time == now, "C10.cancel-record-fields",
+            g.require(payload.cancel_time == now,
+                      "C10.cancel-record-fields" if "C10" in self.props else "C11.notified-with-another-cancel's-record",
                       f"cancel record of order {payload.order_id} handled at t={now} says cancel_time={payload.cancel_time}")
+            if "C11" in self.props:
+                seen = self.__dict__.setdefault("cancel_logs_seen", [])
+                g.require(not any(x is payload for x in seen), "C11.notified-with-another-cancel's-record",
+                          "the owner was handed the same cancel record twice")
+                seen.append(payload)
         if kind in ("log-write", "log-direct") and isinstance(payload, ExecutionLog):
             if id(payload) not in self.fill_ids:
                 self.fill_ids.add(id(payload))
